@@ -116,6 +116,22 @@ def late_hook(sid, gap):
     return s.done()
 
 
+def zero_timeout(sid, ms):
+    """a restore whose hook timeout is zero (or negative): with the runtime parked in its restore poll and silent
+    afterwards the restore fails with the hook timeout at once - it does not wait for ever"""
+    s = Scn(sid, ext=[], timeout_ms=1500, initCaching=True, fullEnv=True)
+    s.meta(family="restore", hook="silent", order="poll-first", ms=ms)
+    s.init()
+    s.await_exec(kind="rt")
+    rp = s.call("rt", "restorenext", async_=True)
+    s.until_state("rt", "RestoreReady")
+    rt = s.call("", "restore", async_=True, tag=s.tag("R"), ms=ms, label="A")
+    s.wait(rp)
+    s.wait(rt)
+    s.call("rt", "creds", id="ok")
+    return s.done()
+
+
 def scenarios(ctx):
     rnd = random.Random(ctx.seed * 181 + 18)
     out = []
@@ -141,6 +157,8 @@ def scenarios(ctx):
                     for cw in (("before", "after"), ("after",), ("before",), ()):
                         n += 1
                         out.append(one("c18-%03d" % n, rnd, hook, order, nx, cw))
+    for i, ms in enumerate((0,) if ctx.quick else (0, -5, 1)):
+        out.append(zero_timeout("c18-zero%d" % (i + 1), ms))
     for i, gap in enumerate((40, 150) if ctx.quick else (0, 10, 40, 150, 400)):
         out.append(late_hook("c18-late%d" % (i + 1), gap))
     # plain mode: the snapshot routes and the credentials endpoint do not exist
